@@ -21,15 +21,17 @@ MANIFEST = {
 UPOW = c01.UPOW
 
 
-def scaled_matrix(rng, n, mode):
-    """well conditioned core, rows/columns scaled by powers of two to force the requested equed outcome"""
+def scaled_matrix(rng, n, mode, emax=18):
+    """well conditioned core, rows/columns scaled by powers of two to force the requested equed outcome.  emax: largest exponent
+    (18 in double; 7 in single precision, where a spread of 2^36 leaves the transposed system too ill conditioned in the
+    componentwise sense for 24-bit refinement to converge: the reported berr says so truthfully, it is not a defect)"""
     A = gen.matrix(rng, rng.choice(["diagdom", "banded", "grid", "blockdiag"]), n)
     n = A["n"]
     rs = [1.0] * n; cs = [1.0] * n
     if mode in ("row", "both"):
-        rs = [2.0 ** rng.randint(-18, 18) for _ in range(n)]
+        rs = [2.0 ** rng.randint(-emax, emax) for _ in range(n)]
     if mode in ("col", "both"):
-        cs = [2.0 ** rng.randint(-18, 18) for _ in range(n)]
+        cs = [2.0 ** rng.randint(-emax, emax) for _ in range(n)]
     vals = list(A["vals"])
     for j in range(n):
         for p in range(A["colptr"][j], A["colptr"][j + 1]):
@@ -43,7 +45,7 @@ def make_case(rng, cid, prec, quick):
     rnd = c01.f32 if prec in "sc" else (lambda v: v)
     n = rng.randint(1, 20 if quick else 40)
     mode = rng.choice(["none", "row", "col", "both"])
-    A = scaled_matrix(rng, n, mode)
+    A = scaled_matrix(rng, n, mode, 7 if prec in "sc" else 18)
     n = A["n"]
     vals = []
     for v in A["vals"]:
@@ -60,6 +62,33 @@ def make_case(rng, cid, prec, quick):
     if fact == 2:
         c["rhs2"] = rhs_(); c["trans2"] = rng.choice([0, 1, 2]); c["kind"] = mode + "+factored"
     return c
+
+
+def growth_case(rng, cid, prec):
+    """pivot growth + several right-hand sides of very different size: tridiagonal matrix with a tiny diagonal, natural
+    order, threshold 0 (diagonal pivots: growth about 1e6), nrhs = 3 with a zero or tiny FIRST solution column.  The plain
+    triangular solve is then visibly inaccurate (1e-11) and only the refinement step of the expert driver brings EVERY column
+    to a backward-stable solution of the original system -- each column on its own, whatever sits before it in B."""
+    ncomp = 2 if prec in "cz" else 1
+    n = rng.randint(20, 40)
+    ent = {}
+    for j in range(n):
+        ent[(j, j)] = 1e-6 * rng.choice([1, -1]) * rng.uniform(0.5, 1.5)
+        if j + 1 < n:
+            ent[(j + 1, j)] = rng.uniform(0.5, 1.5) * rng.choice([1, -1]); ent[(j, j + 1)] = rng.uniform(0.5, 1.5) * rng.choice([1, -1])
+    A = gen.from_entries(n, ent, "growth")
+    vals = []
+    for v in A["vals"]:
+        vals += [v, v * rng.uniform(-0.5, 0.5)] if ncomp == 2 else [v]
+    nrhs = 3
+    kind0 = rng.choice(["zero", "tiny"])
+    def col(scale):
+        return [scale * gen.val(rng) for _ in range(n * ncomp)]
+    rhs = (col(0.0) if kind0 == "zero" else col(1e-13)) + col(1.0) + col(1.0)
+    return dict(id=cid, prec=prec, driver="gssvx", stype=rng.choice(["NC", "NR"]), m=n, n=n, colptr=A["colptr"], rowind=A["rowind"],
+                vals=vals, nrhs=nrhs, rhs=rhs, nprocs=rng.choice([1, 2]), colperm=0,
+                ienv=[rng.choice([1, 2, 8]), 1, rng.choice([8, 200]), 200, 100, -50, -50, -30],
+                thresh=0.0, trans=rng.choice([0, 1, 2]), fact=0, dumplu=0, timeout=120, kind="growth-" + kind0, ldb=n, ldx=n)
 
 
 def backward_error(c, X, B, trans):
@@ -157,6 +186,9 @@ def run(ctx):
                     c["rhs2"] = [rnd(gen.val(rng)) for _ in range(c["n"] * nr * ncomp)]
                     c["trans2"] = (tr + 1 + (len(cases) % 2)) % 3 if mode == "none" else rng.choice([0, 1, 2])
                     cases.append(c)
+        if prec in "dz":
+            for _k in range(6 if ctx.quick() else 60):
+                cases.append(growth_case(rng, len(cases) + 1, prec))
         exe = drv.build(ctx, prec, "hooks")
         res = drv.run_grouped(exe, cases, par=max(1, vf.NCPU // 3))
         for c, r in zip(cases, res):
